@@ -1,6 +1,6 @@
 #!/bin/bash
 # tools/mutcheck.sh Cxx --patch p.diff | --file <path relative to repo root> <mutated copy of that file>  [-- extra ./check args]
-# Evaluates a seeded change WITHOUT touching /repo: takes the first free scratch slot (/tmp/mutwt, /tmp/mutwt2, /tmp/mutwt3, /tmp/mutwt4;
+# Evaluates a seeded change WITHOUT touching /repo: takes the first free scratch slot (/tmp/mutwt, /tmp/mutwt2;
 # one lock each), syncs that worktree to /repo's HEAD, applies the change there, runs `VERIF_REPO_ROOT=<slot> ./check Cxx`,
 # reverts. Prints the check's output; exit code = the check's exit code (1 = the change was detected).
 set -u
@@ -9,7 +9,7 @@ cd /verif
 mkdir -p .cache
 WT=""
 while [ -z "$WT" ]; do
-  for s in mutwt mutwt2 mutwt3 mutwt4; do
+  for s in mutwt mutwt2; do
     exec 9>".cache/$s.lock"
     if flock -n 9; then WT="/tmp/$s"; break; fi
   done
